@@ -2,7 +2,7 @@
 (* Trace validation for C17: one line = one complete call history on a REAL port pair (testdrv, or midicatdrv
    against the stand-in helper): every call with its return value, the deliveries observed after it (listener id,
    message), panics and watchdog expiries.  The history is folded through Ports!PStep.                     *)
-EXTENDS Ports, SequencesExt, TLC, Json, IOUtils
+EXTENDS Ports, McatEvents, SequencesExt, TLC, Json, IOUtils
 VARIABLES l, bad
 Trace == ndJsonDeserialize(IOEnv.VERIF_TRACE)
 
@@ -22,8 +22,13 @@ Judge(e) ==
                             exp |-> IF st.fn = "SendPar" THEN [ret |-> "par", dlv |-> <<>>]
                                     ELSE [ret |-> PStep(e.kind, acc.s, st).ret, dlv |-> PStep(e.kind, acc.s, st).dlv]],
                     [s |-> P0, ok |-> TRUE, genbug |-> FALSE, i |-> 0, exp |-> [ret |-> "", dlv |-> <<>>]], e.steps)
-  IN [ok |-> r.ok /\ ~r.genbug /\ e.race = "",
-      info |-> [id |-> e.id, kind |-> e.kind, genbug |-> r.genbug, failedStep |-> r.i, expected |-> r.exp, race |-> e.race]]
+      \* the hook events of the real in port (lock order) are a behaviour of the abstract monitor that the PlusCal model refines
+      mon == FoldLeft(LAMBDA a, ev : IF a.ok /\ MEnabled(a.m, ev) THEN [m |-> MStep(a.m, ev), ok |-> TRUE, n |-> a.n + 1]
+                                     ELSE [a EXCEPT !.ok = FALSE],
+                      [m |-> M0, ok |-> TRUE, n |-> 0], e.events)
+  IN [ok |-> r.ok /\ ~r.genbug /\ e.race = "" /\ mon.ok,
+      info |-> [id |-> e.id, kind |-> e.kind, genbug |-> r.genbug, failedStep |-> r.i, expected |-> r.exp, race |-> e.race,
+                hookEventsOk |-> mon.ok, hookEventsAccepted |-> mon.n]]
 
 \* C14 on the process-backed driver's own copy of the filter: the same sends under option set o and under all
 \* options on; only the relation between the two real runs is judged: deliveries(o) = Project(o, deliveries(all on))
